@@ -56,11 +56,14 @@ Proof.
   apply IH; assumption.
 Qed.
 
+Lemma lfsr_update_lengths A B : length A = 16 -> length B = 16 ->
+  length (fst (lfsr_update (A, B))) = 16 /\ length (snd (lfsr_update (A, B))) = 16.
+Proof. intros HA HB. unfold lfsr_update. apply lfsr_iter_lengths; assumption. Qed.
+
 Lemma snowv_clock_ok s : sv_ok s -> sv_ok (snowv_clock s).
 Proof.
   intros (HA & HB & H1 & H2 & H3). unfold snowv_clock.
-  destruct (lfsr_iter_lengths 8 (sv_A s, sv_B s) HA HB) as [HA' HB'].
-  fold (lfsr_update (sv_A s, sv_B s)) in HA', HB'.
+  destruct (lfsr_update_lengths (sv_A s) (sv_B s) HA HB) as [HA' HB'].
   destruct (lfsr_update (sv_A s, sv_B s)) as [A' B']. cbn [fst snd] in HA', HB'.
   unfold sv_ok. cbn [sv_A sv_B sv_R1 sv_R2 sv_R3].
   repeat split; try assumption; reflexivity.
@@ -69,14 +72,23 @@ Qed.
 Lemma words16_of_16_bytes z : length z = 16 -> length (words16_of_bytes z) = 8.
 Proof. intros H. explode16 z H. reflexivity. Qed.
 
-Lemma snowv_init_round_ok s : sv_ok s -> sv_ok (snowv_init_round s).
+Lemma init_round_aux A B R1 R2 R3 z :
+  length A = 16 -> length B = 16 -> length R1 = 16 -> length R2 = 16 -> length R3 = 16 ->
+  length z = 16 ->
+  sv_ok (mkSnowV (firstn 8 A ++ map (fun p => N.lxor (fst p) (snd p))
+                                    (combine (skipn 8 A) (words16_of_bytes z))) B R1 R2 R3).
 Proof.
-  intros Hs. pose proof (snowv_z_length s Hs) as Hz.
-  pose proof (snowv_clock_ok s Hs) as (HA & HB & H1 & H2 & H3).
-  unfold snowv_init_round, sv_ok. cbn [sv_A sv_B sv_R1 sv_R2 sv_R3].
+  intros HA HB H1 H2 H3 Hz. unfold sv_ok. cbn [sv_A sv_B sv_R1 sv_R2 sv_R3].
   repeat split; try assumption.
   rewrite app_length, map_length, combine_length, firstn_length, skipn_length, HA.
   rewrite words16_of_16_bytes by exact Hz. reflexivity.
+Qed.
+
+Lemma snowv_init_round_ok s : sv_ok s -> sv_ok (snowv_init_round s).
+Proof.
+  intros Hs. pose proof (snowv_z_length s Hs) as Hz.
+  destruct (snowv_clock_ok s Hs) as (HA & HB & H1 & H2 & H3).
+  unfold snowv_init_round. apply init_round_aux; assumption.
 Qed.
 
 Lemma snowv_xor_R1_ok s k : sv_ok s -> length k = 16 -> sv_ok (snowv_xor_R1 s k).
